@@ -37,16 +37,20 @@ static void check_case(const e3::Entry& e, const std::string& F, const np::Heade
 	std::string FU = relabel(F, h, subset, &hu);
 	std::set<std::string> unknown;
 	for (auto t : subset) unknown.insert(hu.types[t]);
-	for (int raw = 1; raw >= 0; raw--) {
-		J cj = case_of(e, h, subset, raw == 1);
+	for (int mode = 3; mode >= 0; mode--) {
+		const int raw = mode & 1;
+		const bool via_copy = (mode & 2) != 0; // the loaded model is copied and the COPY is saved: it must protect unknown blocks just the same
+		J cj = case_of(e, h, subset, raw == 1).set("via_copy", via_copy);
 		vf::set_inflight(cj.dump());
 		st.add("evaluations");
-		std::string what = e.keyname + " with {" + subset_str(h, subset) + "} unknown, " + (raw ? "raw" : "default") + " save";
+		std::string what = e.keyname + " with {" + subset_str(h, subset) + "} unknown, " + (raw ? "raw" : "default") + " save" + (via_copy ? " of a copy of the model" : "");
 		NifFile n;
 		int rc = s1::load(n, FU);
 		if (rc != 0) { st.violation("load-fails", what + ": Load returns " + std::to_string(rc), cj); continue; }
 		if (!n.HasUnknown()) { st.violation("unknown-not-detected", what + ": HasUnknown() is false", cj); continue; }
-		std::string O = s1::save(n, raw == 1);
+		NifFile ncopy;
+		if (via_copy) ncopy = n;
+		std::string O = s1::save(via_copy ? ncopy : n, raw == 1);
 		np::Header ho = np::parse(O);
 		if (!ho.ok) { st.violation("output-unparsable", what + ": " + ho.err, cj); continue; }
 		outcomes.insert(vf::fnv(O));
